@@ -8,6 +8,7 @@ package main
 import (
 	"go/types"
 	"sort"
+	"strings"
 
 	"golang.org/x/tools/go/ssa"
 )
@@ -69,6 +70,29 @@ func (p *Prog) CallGraph() *callGraph {
 		return false
 	}
 
+	// concrete (non-generic, non-interface) named types of the module
+	var namedTypes []*types.Named
+	for _, pk := range p.Pkgs {
+		if !strings.HasPrefix(pk.PkgPath, modulePath) || isHarnessPkg(pk.PkgPath) {
+			continue
+		}
+		sc := pk.Types.Scope()
+		for _, n := range sc.Names() {
+			tn, ok := sc.Lookup(n).(*types.TypeName)
+			if !ok || tn.IsAlias() {
+				continue
+			}
+			nt, ok := tn.Type().(*types.Named)
+			if !ok || nt.TypeParams().Len() > 0 {
+				continue
+			}
+			if _, isIface := nt.Underlying().(*types.Interface); isIface {
+				continue
+			}
+			namedTypes = append(namedTypes, nt)
+		}
+	}
+
 	var codecUnmarshal, codecMarshal []*ssa.Function
 	for _, fn := range p.Funcs {
 		if fn.Signature.Recv() == nil {
@@ -107,9 +131,34 @@ func (p *Prog) CallGraph() *callGraph {
 					if iface == nil {
 						continue
 					}
+					seenT := map[*ssa.Function]bool{}
 					for _, im := range byMethod[c.Method.Name()] {
 						if implementsIface(im.recv, iface) {
 							add(cgEdge{fn, in, im.fn, "invoke"})
+							seenT[im.fn] = true
+						}
+					}
+					// methods promoted through embedding: resolve the method
+					// set of every concrete module type that implements iface
+					for _, nt := range namedTypes {
+						var recv types.Type = nt
+						if !types.Implements(recv, iface) {
+							recv = types.NewPointer(nt)
+							if !types.Implements(recv, iface) {
+								continue
+							}
+						}
+						sel := types.NewMethodSet(recv).Lookup(c.Method.Pkg(), c.Method.Name())
+						if sel == nil {
+							continue
+						}
+						mf, ok := sel.Obj().(*types.Func)
+						if !ok {
+							continue
+						}
+						if target := p.body(p.SSA.FuncValue(mf)); target != nil && !seenT[target] {
+							seenT[target] = true
+							add(cgEdge{fn, in, target, "invoke"})
 						}
 					}
 					continue
